@@ -3,23 +3,67 @@ pool binary with real WebSocket connections ending in every possible way (C09, t
 that refuse the whitelist instruction with an RPC error over the real transport (C08). -/
 import Vipnode.Drv.Proto
 import Vipnode.Model.Pool
+import Vipnode.Model.Ether
 namespace Vipnode.Drv
 open Vipnode
 
 structure PoolBinDrv where
   pool : Pool := {}
   refusing : List String := []     -- connections whose host currently answers instructions with an RPC error
+  running : Bool := true
+  minBalance : Option Int := none  -- `--contract.min-balance`
+  price : Int := 100000000000      -- `--contract.price` (default "100 gwei")
+  maxHosts : Int := 0              -- `--max-request-hosts`
+  clients : List String := []      -- light clients admitted so far
+
+def unflag (s : String) : String := s.replace "_" " "
+
+/-- can a fresh light client (trial balance 0) register? -/
+def admits (st : PoolBinDrv) : Bool :=
+  match st.minBalance with
+  | some m => !decide (0 < m)
+  | none => true
 
 def poolBinStep (st : PoolBinDrv) (args : List String) : PoolBinDrv × String :=
   let p := st.pool
+  if !st.running && args.head? != some "start" then (st, "err not-running") else
   match args with
+  | "start" :: rest =>
+    -- the operator's flags, parsed as pool.go parses them; a value it cannot parse stops the binary
+    match findStr "min" rest, findStr "price" rest, (findStr "max" rest).bind (·.toInt?) with
+    | some mn, some pr, some mx =>
+      let minV : Option (Option Int) := if mn == "off" then some none else (Ether.parseEther (unflag mn)).map some
+      match minV, Ether.parseEther (unflag pr) with
+      | some m, some price => ({ running := true, minBalance := m, price := price, maxHosts := mx }, "ok")
+      | _, _ => ({ running := false }, "err start-failed")
+    | _, _, _ => (st, "bad-op")
+  | ["client", n] =>
+    if !st.running then (st, "err not-running")
+    else match st.minBalance with
+      | some m => if 0 < m then (st, s!"err LowBalance 0 {m}") else ({ st with clients := n :: st.clients }, "ok")
+      | none => ({ st with clients := n :: st.clients }, "ok")
+  | ["kalive", n] =>
+    if !st.running then (st, "err not-running")
+    else if !st.clients.contains n then (st, "skipped-refused")
+    else if st.price = 0 then (st, "err InvalidSettings")
+    else (st, "ok")
   | ["hostconn", c, n] => ({ st with pool := p.register n c }, "ok")
   | ["closeconn", c, _] => ({ pool := p.closeRemote c, refusing := st.refusing.filter (· != c) }, "ok")
   | ["hostmode", c, m] =>
     if (p.hosts.map (·.2)).contains c then
       ({ st with refusing := if m == "refuse" then c :: st.refusing.filter (· != c) else st.refusing.filter (· != c) }, "ok")
     else (st, "ok")
+  | ["peer", numArg] =>
+    -- with a request count: as many hosts as asked for, capped by `--max-request-hosts` and by the supply
+    match (findStr "num" [numArg]).bind (·.toInt?) with
+    | some num =>
+      if !admits st then (st, "err client-refused") else
+      let eff := if st.maxHosts > 0 ∧ num > st.maxHosts then st.maxHosts else num
+      let k := min eff.toNat p.hosts.length
+      if p.hosts.isEmpty then (st, "err NoHosts wl=") else (st, s!"ok nhosts={k} nwl={k}")
+    | none => (st, "bad-op")
   | ["peer"] =>
+    if !admits st then (st, "err client-refused") else
     -- the client asks for more hosts than exist: every host with a live registration is called on the connection of
     -- its latest registration; those that acknowledge are returned; a connection that has ended is never called
     let wl := ",".intercalate (sortStrings (p.hosts.map (·.2)))
